@@ -83,7 +83,7 @@ def main():
                 "evidence_file": f"/verif/evidence/{pid}.json",
                 "replay_cmd_template": "./check replay {path}",
                 "engine": c["engine"],
-                "level_claimed": {"category": c["level"], "text": c["text"], "design_ref": c["design"]},
+                "level_claimed": {"category": c["level"], "text": c["text"] + " The alphabets have grown since this summary was written (dimensions added after seeded changes were missed): the current ones are in DESIGN.md section 0 (table) and in the `bounds` of the evidence file, which the check writes itself.", "design_ref": c["design"]},
                 "level_note": c.get("note", NOTE),
                 "technique": c["technique"],
             })
